@@ -1,6 +1,7 @@
 package core
 
 import (
+	"fmt"
 	"go/token"
 	"go/types"
 
@@ -53,6 +54,81 @@ func FlattenPhi(v ssa.Value) []ssa.Value {
 	return out
 }
 
+// Leaves is FlattenPhi across the frames of helpers: the result of a static
+// call of an unexported function of the module stands for the values that
+// function returns, and a parameter of such a function for the values its
+// static call sites pass (every site: the resolution is context-insensitive,
+// which can only add leaves).  The leaves can therefore belong to different
+// functions.  Exported functions, functions without a body or with unknown
+// callers, and recursion stop the resolution at the call or parameter.
+func Leaves(v ssa.Value) []ssa.Value {
+	var out []ssa.Value
+	seen := map[ssa.Value]bool{}
+	var walk func(x ssa.Value, d int)
+	walk = func(x ssa.Value, d int) {
+		for _, l := range FlattenPhi(x) {
+			if seen[l] {
+				continue
+			}
+			seen[l] = true
+			if d >= 4 {
+				out = append(out, l)
+				continue
+			}
+			switch y := l.(type) {
+			case *ssa.Parameter:
+				if args := ArgsOfParam(y); len(args) > 0 {
+					for _, a := range args {
+						walk(a, d+1)
+					}
+					continue
+				}
+			case *ssa.Call, *ssa.Extract:
+				call, idx, ok := CallResult(l)
+				if _, isTuple := l.Type().(*types.Tuple); isTuple {
+					ok = false
+				}
+				if ok {
+					if h := helperOf(call); h != nil {
+						if idx < 0 {
+							idx = 0
+						}
+						n := 0
+						for _, b := range h.Blocks {
+							if len(b.Instrs) == 0 || b == h.Recover {
+								continue
+							}
+							if ret, isRet := AsReturn(b.Instrs[len(b.Instrs)-1]); isRet && idx < len(ret.Results) {
+								n++
+								walk(Res(ret, idx), d+1)
+							}
+						}
+						if n > 0 {
+							continue
+						}
+					}
+				}
+			}
+			out = append(out, l)
+		}
+	}
+	walk(v, 0)
+	return out
+}
+
+// helperOf returns the unexported module function with a body that call
+// invokes statically (a tuple-valued call included), or nil.
+func helperOf(call *ssa.Call) *ssa.Function {
+	h := Impl(call.Common().StaticCallee())
+	if h == nil || len(h.Blocks) == 0 || !InModule(h) || h.Object() == nil || (h.Object().Exported() && !Transparent(h)) {
+		return nil
+	}
+	if _, isTuple := call.Type().(*types.Tuple); isTuple && call.Common().IsInvoke() {
+		return nil
+	}
+	return h
+}
+
 // IsCallResult reports whether v is result #idx (or the only result when
 // idx < 0) of a call to one of keys.
 func IsCallResult(v ssa.Value, idx int, keys ...string) bool {
@@ -63,13 +139,11 @@ func IsCallResult(v ssa.Value, idx int, keys ...string) bool {
 	if idx >= 0 && i != idx && !(i == -1 && idx == 0) {
 		return false
 	}
-	k := CalleeKey(c.Common())
+	set := map[string]bool{}
 	for _, want := range keys {
-		if k == want {
-			return true
-		}
+		set[want] = true
 	}
-	return false
+	return calleeIn(c.Common(), set)
 }
 
 // TypeKey renders a type with module prefixes stripped.
@@ -276,6 +350,18 @@ func ResolveCellLoad(v ssa.Value) ssa.Value {
 		}
 		cell, ok := u.X.(*ssa.Alloc)
 		if !ok {
+			// a variable captured by a function literal and assigned exactly once (a parameter, typically):
+			// inside the literal it is that one value
+			if fv, isFV := u.X.(*ssa.FreeVar); isFV && u.Op == token.MUL {
+				if c := cellOfAddr(fv); c != nil {
+					if st := CellStores(c); len(st) == 1 {
+						if _, isParam := st[0].(*ssa.Parameter); isParam {
+							v = st[0]
+							continue
+						}
+					}
+				}
+			}
 			return v
 		}
 		vals, zero, clob := ReachingStores(cell, u)
@@ -349,4 +435,28 @@ func SameValue(a, b ssa.Value) bool {
 		}
 	}
 	return false
+}
+
+// AccessPath renders v as a chain of field loads from a root value
+// ("<root>.BlockedServices.Schedule"): two values with the same path are loads
+// of the same field of the same object (stores between the loads are not
+// looked at: the path names the place, not the content).
+func AccessPath(v ssa.Value) string {
+	v = ResolveCellLoad(v)
+	switch x := v.(type) {
+	case *ssa.UnOp:
+		if x.Op == token.MUL {
+			if fa, ok := x.X.(*ssa.FieldAddr); ok {
+				fr, _ := FieldOfAddr(fa)
+				return AccessPath(fa.X) + "." + fr.Field
+			}
+		}
+	case *ssa.Field:
+		fr, _ := FieldOfAddr(x)
+		return AccessPath(x.X) + "." + fr.Field
+	case *ssa.FieldAddr:
+		fr, _ := FieldOfAddr(x)
+		return AccessPath(x.X) + ".&" + fr.Field
+	}
+	return fmt.Sprintf("%s@%p", v.Name(), v)
 }
